@@ -109,6 +109,9 @@ def run(ctx):
     ctx.rule = RULE
     ctx.lean_check("Mashu.Props.C11", THEOREMS, extra_targets=["Mashu.Dispatch"])
     decode.run_decode(ctx, CORPUS_DEC, judge_decode)
+    from . import c03
+
+    decode.run_decode(ctx, c03.NULLABLE_CORPUS, judge_decode)   # Optional positions: nulls of fields and of tuple elements
     for mode, cs in decode.fixed_corpus(ctx).items():
         decode.run_decode(ctx, cs, judge_decode, annot=mode)
     n = 2000 if ctx.tier == "quick" else 30000
